@@ -8,8 +8,9 @@ from __future__ import annotations
 import os
 import sys
 
-if '/repo/src' not in sys.path:
-    sys.path.insert(0, '/repo/src')
+REPO_SRC = os.environ.get('VERIF_REPO_SRC', '/repo/src')
+if REPO_SRC not in sys.path:
+    sys.path.insert(0, REPO_SRC)
 os.environ.setdefault('exabgp_log_enable', 'false')
 
 from vt.ref import wire  # noqa: E402
